@@ -403,7 +403,7 @@ func c03(r *vlib.Run) int {
 	}
 	results, crashes := r.RunBatches("c03api", cases, 40, 14, nil, nil)
 	for _, cr := range crashes {
-		r.Violation("reader-crash", map[string]interface{}{"case": cases[cr.Index], "stderr": vlib.Trunc(string(cr.Result.Stderr), 3000)})
+		r.Violation("reader-crash", map[string]interface{}{"case": cases[cr.Any()], "stderr": vlib.Trunc(string(cr.Result.Stderr), 3000)})
 	}
 	exComplete := len(crashes) == 0
 	for i, raw := range results {
